@@ -31,6 +31,7 @@ fn recover_and_check(
     future_commit: Option<&DocSetState>,
     deep: bool,
     check_writable: bool,
+    replay: Option<&[Op]>,
 ) -> Result<usize, (String, Value)> {
     let dir = MonDir::from_image(img, MonCfg::default());
     let index = match guarded(|| Index::open(dir.clone())) {
@@ -111,7 +112,54 @@ fn recover_and_check(
     if let Some((sig, d)) = errs.into_iter().next() {
         return Err((format!("recover:{sig}"), d));
     }
-    if check_writable {
+    if check_writable && ci == allowed.last_acked && allowed.in_flight && replay.is_some() && future_commit.is_some() {
+        // The interrupted transaction did not land: do what an application replaying its own log
+        // does - the same operations again on a new writer (same opstamps as before the crash,
+        // files of the interrupted commit may still lie around), commit, GC.
+        let wdir = MonDir::from_image(img, MonCfg::default());
+        let widx = Index::open(wdir.clone()).map_err(|e| ("recover:reopen".to_string(), json!(e.to_string())))?;
+        let want = future_commit.unwrap();
+        let ops = replay.unwrap();
+        let hs2 = hs.clone();
+        let res = guarded(|| -> Result<(), String> {
+            let mut model = Model::new();
+            model.committed = st.clone();
+            model.commits = vec![st.clone()];
+            model.payload = widx.load_metas().map_err(|e| format!("load_metas: {e}"))?.payload;
+            let cfg = ExecCfg { threads: 1, merge_policy: false, sort: None, budget_per_thread: 15_000_000 };
+            let mut ex = Exec::attach(widx.clone(), hs2, cfg, None, model).map_err(|e| format!("writer: {e}"))?;
+            for op in ops {
+                let o = ex.step(op);
+                if !o.ok {
+                    return Err(format!("replayed {} failed: {:?}", op.kind(), o.err));
+                }
+            }
+            let o = ex.step(&Op::Commit);
+            if !o.ok {
+                return Err(format!("commit of the replayed transaction failed: {:?}", o.err));
+            }
+            ex.writer
+                .as_ref()
+                .unwrap()
+                .garbage_collect_files()
+                .wait()
+                .map_err(|e| format!("gc: {e}"))?;
+            if let Some((s, d)) = ex.problems.iter().find(|(s, _)| !is_known("C02", s)) {
+                return Err(format!("replayed transaction: {s} {d}"));
+            }
+            let r = widx.reader().map_err(|e| format!("reader: {e}"))?;
+            let errs = compare_searcher(&r.searcher(), hs, want, false);
+            if let Some((s, d)) = errs.into_iter().next() {
+                return Err(format!("state after recovery + replayed transaction: {s} {d}"));
+            }
+            Ok(())
+        });
+        match res {
+            Ok(Ok(())) => {}
+            Ok(Err(e)) => return Err(("recover:cannot-replay-the-interrupted-transaction".into(), json!(e))),
+            Err(p) => return Err((format!("recover:replay-panicked:{}", p.sig()), json!(p.message))),
+        }
+    } else if check_writable {
         // the recovered index accepts a writer, a commit and GC
         let wdir = MonDir::from_image(img, MonCfg::default());
         let widx = Index::open(wdir.clone()).map_err(|e| ("recover:reopen".to_string(), json!(e.to_string())))?;
@@ -163,8 +211,21 @@ fn case(case: u64, rng: &mut Rng, rep: &mut Report, thorough: bool) {
         }
     };
     let created_seq = mon.seq();
+    // operations of each committed transaction, in commit order (what a client would replay)
+    let mut txn_ops: Vec<Vec<Op>> = vec![];
+    let mut cur_txn: Vec<Op> = vec![];
     for op in &ops {
-        ex.step(op);
+        let out = ex.step(op);
+        match op {
+            Op::Add(_) | Op::DeleteTerm(_) | Op::DeleteQuery(_) | Op::Batch(_) | Op::DeleteAll => cur_txn.push(op.clone()),
+            Op::Commit | Op::PrepCommit { abort: false, .. } => {
+                if out.ok {
+                    txn_ops.push(std::mem::take(&mut cur_txn));
+                }
+            }
+            Op::Rollback | Op::Reopen { .. } | Op::PrepCommit { abort: true, .. } => cur_txn.clear(),
+            _ => {}
+        }
         rep.count(&format!("op:{}", op.kind()), 1);
         if ex.problems.iter().any(|(s, _)| !is_known("C02", s)) {
             break;
@@ -262,7 +323,8 @@ fn case(case: u64, rng: &mut Rng, rep: &mut Report, thorough: bool) {
             images += 1;
             let deep = oi == 0 && boundaries % 16 == 0;
             let writable = oi < 2 && boundaries % 8 == 0;
-            match recover_and_check(&img, &hs, &commits, &allowed, future, deep, writable) {
+            let replay = if in_flight { txn_ops.get(last_acked).map(|v| v.as_slice()) } else { None };
+            match recover_and_check(&img, &hs, &commits, &allowed, future, deep, writable, replay) {
                 Ok(ci) => {
                     *recovered_states.entry(ci).or_insert(0) += 1;
                     let nt = img.len() > 2;
